@@ -309,7 +309,10 @@ class Aggregate(list):
                     raise OFXSpecError
                 kwargs[attrname] = value
 
-            return args, kwargs, index, is_listmember
+            # List members may interleave, but the sequence position reached
+            # so far never moves backwards - or a later non-list child could
+            # slip in after list members it should precede
+            return args, kwargs, max(index, prev_index), is_listmember
 
         #  ElementTree API: child Elements stored as a sequence, accessible
         #  by iterating over the parent Element.
